@@ -309,12 +309,17 @@ FAMILIES = {
              for acc in ("RW", "RDONLY")],
     "hdd": [("plain", "plain.hdd"), ("expanding", "expanding.hdd"), ("split", "split.hdd"),
             # an image whose writer still has it open (m_DiskInUse set): a reader takes no lock of its own
-            ("expanding-inuse", "expanding.hdd"), ("split-inuse", "split.hdd")],
+            ("expanding-inuse", "expanding.hdd"), ("split-inuse", "split.hdd"),
+            # a bundle whose descriptor is damaged or gone while the writer's backup copy sits next to it: nothing is restored
+            ("expanding-backup:half", "expanding.hdd"), ("split-backup:empty", "split.hdd"), ("plain-backup:missing", "plain.hdd"),
+            ("expanding-backup:garbage", "expanding.hdd")],
     "qcow2": [("synthetic", None), ("synthetic-64k", None), ("synthetic-rwhandle", None),
               # feature bits a writer would maintain (lazy refcounts; autoclear bits, known and unknown): a reader leaves them
               ("featbits", None), ("featbits-rwhandle", None)],
     "vdi": [("synthetic", None), ("synthetic-rwhandle", None)],
-    "hyperv": [("vmcx", "test.vmcx"), ("vmrs", "test.VMRS"), ("vmcx-rwhandle", "test.vmcx")],
+    "hyperv": [("vmcx", "test.vmcx"), ("vmrs", "test.VMRS"), ("vmcx-rwhandle", "test.vmcx"),
+               # generated files with values kept in file objects (large values), read through every accessor
+               ("blobs", None), ("blobs-rwhandle", None)],
     "vmx": [("encrypted", "encrypted.vmx"), ("plain", None)],
     "xml": [("ovf", None), ("vbox", None), ("pvs", None)],
     "envelope": [("library", None), ("cli", None), ("cli-outdir", None), ("cli-outdir-upper", None)],
@@ -476,6 +481,19 @@ class AuditSuite(Suite):
         paths = {}
         if sample:
             paths["main"] = materialise_sample(sample, root)
+            if "-backup:" in variant:
+                dx = os.path.join(paths["main"], "DiskDescriptor.xml")
+                shutil.copy(dx, dx + ".Backup")
+                how = variant.split(":")[1]
+                if how == "missing":
+                    os.unlink(dx)
+                elif how == "garbage":
+                    with open(dx, "r+b") as o:
+                        o.seek(40)
+                        o.write(b"<<<&&&>>>")
+                else:
+                    with open(dx, "r+b") as o:
+                        o.truncate(0 if how == "empty" else os.path.getsize(dx) // 2)
             if variant.endswith("-inuse"):
                 for f in sorted(os.listdir(paths["main"])):
                     if f.endswith(".hds"):
@@ -519,6 +537,17 @@ class AuditSuite(Suite):
             build_vmdk_descriptor(root)
             paths["main"] = os.path.join(root, "disk-f001.vmdk")
             paths["second"] = os.path.join(root, "disk-f002.vmdk")
+        if fam == "hyperv" and not sample:
+            from harness.props import c17
+            r = core.Rng(case["seed"])
+            for _ in range(200):
+                hc = c17.gen_case(r, "quick")
+                if hc["dims"]["n_blobs"] and not hc["dims"]["high"] and c17.open_sparse(hc).size < (8 << 20):
+                    break
+            sf = c17.open_sparse(hc)
+            paths["main"] = os.path.join(root, "generated.vmcx")
+            with open(paths["main"], "wb") as o:
+                o.write(sf.content(0, sf.size))
         if fam == "qcow2":
             paths["main"] = os.path.join(root, "img.qcow2")
             with open(paths["main"], "wb") as o:
@@ -574,7 +603,8 @@ class AuditSuite(Suite):
             hds = sorted(f for f in os.listdir(target) if f.endswith(".hds"))
             target = os.path.join(target, hds[case["seed"] % len(hds)]) if case["damage"] != "none" and case["seed"] % 2 else \
                 os.path.join(target, "DiskDescriptor.xml")
-        damage_file(target, case["damage"], case["seed"])
+        if os.path.exists(target):
+            damage_file(target, case["damage"], case["seed"])
         for p in list(paths.values()):
             if os.path.isfile(p):
                 # "-rwhandle": the caller hands over a handle it opened read/write (a generic I/O layer does): the file
@@ -629,6 +659,17 @@ class AuditSuite(Suite):
             from dissect.hypervisor.descriptor.hyperv import HyperVFile
             hf = HyperVFile(H(main))
             hf.as_dict()
+            # every stored value once more through the entry accessors (data, value, and the stream of a file object)
+            for kt in [t for ts in hf.key_tables.values() for t in ts]:
+                for ent in kt.entries:
+                    try:
+                        if ent.is_file_object_pointer:
+                            with_stream = ent.get_file_object().open()
+                            with_stream.read(64)
+                            ent.get_file_object().read(16)
+                        ent.data  # noqa: B018
+                    except Exception:  # noqa: BLE001
+                        pass
         elif fam == "vmx":
             from dissect.hypervisor.descriptor.vmx import VMX
             v = VMX.parse(H(main, text=True).read())
@@ -713,7 +754,8 @@ class AuditSuite(Suite):
                     fs.append(Finding("impl_vs_model", f"{tag}: open of {ev[1]} (mode {ev[2]}) at {rel}:{line} in {fn} is not in the "
                                       f"static inventory Gen/Effects.v", "c09:inventory-miss"))
         if case["damage"] == "none" and not impl_res["outcome"].startswith("ok") and \
-                not (case["variant"] in ("differencing-path", "flat-descriptor-parent", "cli", "differencing-path-parent-present")):
+                not (case["variant"] in ("differencing-path", "flat-descriptor-parent", "cli", "differencing-path-parent-present")
+                     or "-backup:" in case["variant"]):
             fs.append(Finding("coq_error", f"{tag}: undamaged workload failed ({impl_res['outcome']}): the audit did not cover it",
                               "c09:workload"))
         return fs
